@@ -110,6 +110,11 @@ def main():
         (r"(?m)^(\s*)go (s\.update\(lnode.*\))\n\s*go (s\.update\(rnode.*\))$",
          r"\1simgo.Pair(func() { \2 }, func() { \3 })", 1)], simgo)
 
+    # SYNC world: inside a synctest bubble code takes no time, so the hash fetcher's timer (armed in the
+    # same instant as the request) fires at exactly reqTime+timeout and the strict comparison, which in
+    # real time is always true at that point (the timer fires late, never early), would be false forever.
+    rewrite("syncer/hashfetcher.go", [(r"time\.Now\(\)\.Sub\(hf\.reqTime\) > hf\.timeout", "time.Now().Sub(hf.reqTime) >= hf.timeout", 1)])
+
     # 5. patched copies of two dependencies (go >= 1.24 refuses overlays below GOMODCACHE, so
     #    they are wired in through `replace` directives of the scratch go.mod instead)
     modcache = subprocess.check_output(["go", "env", "GOMODCACHE"], text=True).strip()
